@@ -85,6 +85,38 @@ func runC14(res *Result, rng *RNG, tier string, outDir string) {
 			res.Violate("parsed-value-panics:"+what, "a successfully parsed "+what+" panics when added to a builder/authorizer: "+p, map[string]interface{}{"text": text})
 		}
 	}
+	// regression corpus (runs first): inputs of defects repaired in /repo
+	for _, cw := range []struct{ key, text string }{
+		{"bang-string", `check if x($a), $a == "!"`},
+		{"bang-string-method-arg", `check if x($a), $a.contains("!")`},
+		{"bang-string-negated", `check if x($a), !("!" == $a)`},
+	} {
+		got, err := parser.FromStringCheck(cw.text)
+		rep := map[string]interface{}{"kind": "check", "text": cw.text}
+		res.Count("corpus "+cw.text, true)
+		if err != nil {
+			res.Violate("valid-text-rejected:corpus-"+cw.key, "a check of the documented grammar is rejected (string literal \"!\" taken for the negation operator): "+err.Error(), rep)
+			addCase("PCheck", cw.text, nil, "PXErr")
+			continue
+		}
+		var gc SCheck
+		found := false
+		for _, q := range got.Queries {
+			gr, _ := ruleFromBiscuit(q)
+			gc = append(gc, gr)
+			for _, e := range gr.Exprs {
+				for _, o := range e {
+					if o.Kind == 0 && o.Val.Kind() == KStr && o.Val.A.S == "!" {
+						found = true
+					}
+				}
+			}
+		}
+		if !found {
+			res.Violate("wrong-denotation:corpus-"+cw.key, fmt.Sprintf("parsed %s: the string operand \"!\" is missing", azOp{Kind: "check", Check: gc}), rep)
+		}
+		addCase("PCheck", cw.text, nil, "PXCheck ("+gc.coq()+")")
+	}
 	for i := 0; i < n; i++ {
 		r := rng.Fork()
 		ps := map[string]STerm{"p1": aInt(7), "p2": aStr("param string"), "who": aStr("alice")}
